@@ -292,6 +292,7 @@ static json gen_opts(Rng &r, const SchemaGen &g, int depth)
 		std::swap(names[i - 1], names[r.below(i)]);
 	int n = (int)r.range(1, g.max_opts);
 	json opts = json::array();
+	bool root_used = false;
 	for (int i = 0; i < n; i++) {
 		json o;
 		o["n"] = names[i];
@@ -324,6 +325,10 @@ static json gen_opts(Rng &r, const SchemaGen &g, int depth)
 		int fl = 0;
 		if (kind == "sec") {
 			o["t"] = "sec";
+			if (g.root_name && !root_used && r.chance(1, 10)) {
+				o["n"] = "root";
+				root_used = true;
+			}
 			unsigned f = (unsigned)r.below(g.keystrval ? 7 : 6);
 			if (!g.title_sections && (f == 2 || f == 3 || f == 4))
 				f = 1;
